@@ -41,9 +41,12 @@ pub enum Pipe {
   BufferCountTime,
   SampleTick,
   ThrottleAll,
+  ThrottleLead,
+  ThrottleTailTick,
+  DebounceTick,
 }
 
-pub const RATE_PIPES: &[Pipe] = &[Pipe::BufferTime, Pipe::BufferCountTime, Pipe::SampleTick, Pipe::ThrottleAll, Pipe::Debounce];
+pub const RATE_PIPES: &[Pipe] = &[Pipe::BufferTime, Pipe::BufferCountTime, Pipe::SampleTick, Pipe::ThrottleAll, Pipe::ThrottleLead, Pipe::ThrottleTailTick, Pipe::DebounceTick];
 
 pub const C10_PIPES: &[Pipe] = &[Pipe::Subject, Pipe::Merge, Pipe::Zip, Pipe::CombineLatest, Pipe::TakeUntil, Pipe::MergeAll, Pipe::ConcatAll, Pipe::Share, Pipe::ObserveOn, Pipe::Delay];
 
@@ -216,13 +219,16 @@ pub fn build(p: Pipe) -> Rig {
       keep!(cat::hot_tagged_t(0).debounce(world::units(1), world::any_sched()).actual_subscribe(probe));
       Rig { feed: feed_tags(vec![0]), ninputs: 1, unsub, subscribe: None, probes: vec![probe], drain: sched_drain, peek: None, extra: vec![] }
     }
-    Pipe::BufferTime | Pipe::BufferCountTime | Pipe::SampleTick | Pipe::ThrottleAll => {
+    Pipe::BufferTime | Pipe::BufferCountTime | Pipe::SampleTick | Pipe::ThrottleAll | Pipe::ThrottleLead | Pipe::ThrottleTailTick | Pipe::DebounceTick => {
       let sd = world::any_sched();
       let src = cat::hot_tagged_t(0);
       match p {
         Pipe::BufferTime => keep!(src.buffer_with_time(world::units(1), sd).map(|v: Vec<Val>| Val::L(v)).actual_subscribe(probe)),
         Pipe::BufferCountTime => keep!(src.buffer_with_count_and_time(2, world::units(1), sd).map(|v: Vec<Val>| Val::L(v)).actual_subscribe(probe)),
         Pipe::SampleTick => keep!(src.sample_threads(observable::interval(world::units(1), sd).map(|n: usize| Val::c(n as i64)).on_error_map(|_: std::convert::Infallible| Val::c(0))).actual_subscribe(probe)),
+        Pipe::DebounceTick => keep!(src.debounce(world::units(1), sd).actual_subscribe(probe)),
+        Pipe::ThrottleLead => keep!(src.throttle(|_v: &Val| world::units(1), rxrust::ops::throttle::ThrottleEdge::leading(), sd).actual_subscribe(probe)),
+        Pipe::ThrottleTailTick => keep!(src.throttle(|_v: &Val| world::units(1), rxrust::ops::throttle::ThrottleEdge::tailing(), sd).actual_subscribe(probe)),
         _ => keep!(src.throttle(|_v: &Val| world::units(1), rxrust::ops::throttle::ThrottleEdge::all(), sd).actual_subscribe(probe)),
       }
       let tick: Rc<dyn Fn()> = Rc::new(|| {
@@ -646,7 +652,7 @@ pub fn harnesses() -> Vec<HarnessDef> {
   add("c02_threads", vec!["C02"], "an unsubscribing logical thread racing an emitting one at every lock acquisition: no callback may start after unsubscribe() returned (scheduled work is drained afterwards)", |_| "9 thread-safe pipelines + finalize_threads, debounce, throttle(tailing); 2 threads x 2 operations".to_string(), Box::new(|_| c10_preempt(&[Pipe::Subject, Pipe::Merge, Pipe::Zip, Pipe::CombineLatest, Pipe::TakeUntil, Pipe::MergeAll, Pipe::Share, Pipe::ObserveOn, Pipe::Delay, Pipe::Finalize, Pipe::Debounce, Pipe::ThrottleTail, Pipe::ConcatAll, Pipe::ConcatQueued], 2, 3)), 3_000_000, 40_000_000);
   add("c05_threads_iter", vec!["C05", "C16"], "flat_map_threads over a hot inner and a synchronous from_iter inner: another thread terminates the output while the iterator inner is emitting; it must stop pulling (no blocking on an unbounded iterator)", |_| "2 threads x 2 operations, <= 3 pre-emptions".to_string(), Box::new(|_| c10_preempt(&[Pipe::FlatMapIter], 2, 3)), 3_000_000, 40_000_000);
   add("c02_threads_sched", vec!["C02", "C19"], "a pool worker thread polling scheduled tasks (subscribe_on / delay_subscription over a synchronous source, observe_on_threads, delay_threads, interval) racing an unsubscribing thread at every lock acquisition and inside callbacks", |_| "5 pipelines; worker: 3 executor steps; 1 unsubscribe; <= 3 pre-emptions".to_string(), Box::new(|_| c02_threads_sched()), 3_000_000, 40_000_000);
-  add("c09_threads_preempt", vec!["C09", "C10"], "buffer_with_time, buffer_with_count_and_time, sample(interval), throttle(all), debounce on a thread-safe source: the pool worker's timer callbacks race the source thread at every lock acquisition and inside callbacks; monitors + serialisability (no item or final buffer may be lost while a tick is being delivered)", |_| "5 rate-limiting pipelines; 2 threads x 2 operations from next/complete/error/unsubscribe/clock tick + poll; <= 3 pre-emptions".to_string(), Box::new(|_| c10_preempt(RATE_PIPES, 2, 3)), 3_000_000, 40_000_000);
+  add("c09_threads_preempt", vec!["C09", "C10"], "buffer_with_time, buffer_with_count_and_time, sample(interval), throttle(all), debounce on a thread-safe source: the pool worker's timer callbacks race the source thread at every lock acquisition and inside callbacks; monitors + serialisability (no item or final buffer may be lost while a tick is being delivered)", |t| format!("7 rate-limiting pipelines; 2 threads x {} operations from next/complete/error/unsubscribe/clock tick + poll; <= 3 pre-emptions", if t { 3 } else { 2 }), Box::new(|t| c10_preempt(RATE_PIPES, if t { 3 } else { 2 }, 3)), 3_000_000, 40_000_000);
   add("c04_threads_preempt", vec!["C04", "C10"], "the two-input _threads combinators with their two inputs driven by two logical threads: monitors + serialisability (a terminal of one input must not be lost or duplicated while the other input is delivering)", |_| "merge, zip, combine_latest, with_latest_from, take_until, skip_until, sample _threads; 2 threads x 2 operations; <= 3 pre-emptions".to_string(), Box::new(|_| c10_preempt(&[Pipe::Merge, Pipe::Zip, Pipe::CombineLatest, Pipe::WithLatestFrom, Pipe::TakeUntil, Pipe::SkipUntil, Pipe::Sample], 2, 3)), 3_000_000, 40_000_000);
   add("c06_threads", vec!["C06"], "SubjectThreads under two logical threads: every subscriber's log stays well-formed and all subscribers agree on the order", |t| format!("2 threads x {} operations", if t { 3 } else { 2 }), Box::new(|t| c10_preempt(&[Pipe::Subject], if t { 3 } else { 2 }, 3)), 3_000_000, 40_000_000);
   add("c12_threads", vec!["C12"], "BehaviorSubject over SubjectThreads: two producers and a late subscriber; peek() = last value in the common delivery order", |_| "2 threads x 2 operations".to_string(), Box::new(|_| c10_preempt(&[Pipe::Behavior], 2, 3)), 3_000_000, 40_000_000);
